@@ -88,4 +88,130 @@ Proof.
     apply sim_bind; [apply sim_handle_error; exact Hc|apply mono_handle_error|intros; apply IH|intros; apply seq_items_mono].
 Qed.
 
+
+(* a tactic for the recurring shape: both runs branch on related `enter_tr` results *)
+Ltac enter_cases He :=
+  cbn [erel] in He; try contradiction;
+  try (apply sim_junk_l; exact I); try (apply sim_junk_r; exact I); try apply sim_raise;
+  try (destruct He as [[]|[[]|He]]; cbn in He; try contradiction).
+
+Lemma crel_items of oc : crel of oc -> o_invalid_items of = o_invalid_items oc.
+Proof. unfold crel. intros H. decompose [and] H. assumption. Qed.
+Lemma crel_keys of oc : crel of oc -> o_invalid_keys of = o_invalid_keys oc.
+Proof. unfold crel. intros H. decompose [and] H. assumption. Qed.
+Lemma crel_values of oc : crel of oc -> o_invalid_values of = o_invalid_values oc.
+Proof. unfold crel. intros H. decompose [and] H. assumption. Qed.
+
+(* ---- _parse_tuple_args ---- *)
+Lemma tuple_items_mono o depth vals : forall args i acc, mono (tuple_items tr o depth vals i args acc).
+Proof.
+  induction args as [|arg rest IH]; intros i acc; cbn [tuple_items]; [apply mono_ret|].
+  destruct (List.length vals <=? i)%nat; [apply mono_bind; [apply mono_handle_error|intros; apply IH]|].
+  destruct (depth_check o (new_depth depth (route_idx i))); try apply mono_lift;
+  (destruct (nth_error vals i); [|apply mono_lift];
+   destruct (enter_tr tr o depth (route_idx i) arg p) as [e|[r|e| | |]]; try apply mono_lift; try apply IH;
+   destruct (o_invalid_items o); try apply IH; apply mono_bind; try apply mono_handle_error; intros; apply IH).
+Qed.
+
+Lemma tuple_items_sim of oc depth vals : crel of oc -> forall args i acc,
+  sim (tuple_items tr of depth vals i args acc) (tuple_items tr oc depth vals i args acc).
+Proof.
+  intros Hc. induction args as [|arg rest IH]; intros i acc; cbn [tuple_items]; [apply sim_ret|].
+  destruct (List.length vals <=? i)%nat.
+  { apply sim_bind; [apply sim_handle_error; exact Hc|apply mono_handle_error|intros; apply IH|intros; apply tuple_items_mono]. }
+  rewrite (depth_check_crel of oc _ Hc).
+  destruct (depth_check oc (new_depth depth (route_idx i))); try apply sim_lift;
+  (destruct (nth_error vals i) as [item|]; [|apply sim_lift];
+   pose proof (enter_rel of oc depth (route_idx i) arg item Hc) as He;
+   rewrite (crel_items of oc Hc);
+   destruct (enter_tr tr of depth (route_idx i) arg item) as [ef|[rf|ef| | |]];
+   destruct (enter_tr tr oc depth (route_idx i) arg item) as [ec|[rc|ec| | |]]; enter_cases He;
+   [subst rc; apply IH|
+    destruct (o_invalid_items oc); try apply IH;
+    (apply sim_bind; [apply sim_handle_error; exact Hc|apply mono_handle_error|intros; apply IH|intros; apply tuple_items_mono])]).
+Qed.
+
+Lemma tuple_exceed_mono o : forall extra i, mono (tuple_exceed o i extra).
+Proof. induction extra as [|x r IH]; intros i; cbn [tuple_exceed]; [apply mono_ret|apply mono_bind; [apply mono_handle_error|intros; apply IH]]. Qed.
+Lemma tuple_exceed_sim of oc : crel of oc -> forall extra i, sim (tuple_exceed of i extra) (tuple_exceed oc i extra).
+Proof.
+  intros Hc. induction extra as [|x r IH]; intros i; cbn [tuple_exceed]; [apply sim_ret|].
+  apply sim_bind; [apply sim_handle_error; exact Hc|apply mono_handle_error|intros; apply IH|intros; apply tuple_exceed_mono].
+Qed.
+
+Lemma parse_tuple_args_mono o depth args v : mono (parse_tuple_args tr o depth args v).
+Proof.
+  unfold parse_tuple_args. destruct v; try apply mono_lift.
+  apply mono_bind; [destruct (_ && _); [apply tuple_exceed_mono|apply mono_ret]|intros].
+  apply mono_bind; [apply tuple_items_mono|intros; apply mono_ret].
+Qed.
+Lemma parse_tuple_args_sim of oc depth args v : crel of oc ->
+  sim (parse_tuple_args tr of depth args v) (parse_tuple_args tr oc depth args v).
+Proof.
+  intros Hc. unfold parse_tuple_args. destruct v; try apply sim_lift.
+  assert (Ha : o_addition of = o_addition oc) by (unfold crel in Hc; decompose [and] Hc; assumption).
+  assert (Hn : o_no_data_loss of = o_no_data_loss oc) by (unfold crel in Hc; decompose [and] Hc; assumption).
+  rewrite Ha, Hn.
+  apply sim_bind.
+  - destruct (_ && _); [apply tuple_exceed_sim; exact Hc|apply sim_ret].
+  - destruct (_ && _); [apply tuple_exceed_mono|apply mono_ret].
+  - intros _. apply sim_bind; [apply tuple_items_sim; exact Hc|apply tuple_items_mono|intros; apply sim_ret|intros; apply mono_ret].
+  - intros _. apply mono_bind; [apply tuple_items_mono|intros; apply mono_ret].
+Qed.
+
+(* ---- _parse_seq_args as a whole ---- *)
+Lemma parse_seq_args_mono o depth arg v : mono (parse_seq_args tr o depth arg v).
+Proof. unfold parse_seq_args. destruct (items_of v); [|apply mono_lift]. apply mono_bind; [apply seq_items_mono|intros; apply mono_ret]. Qed.
+Lemma parse_seq_args_sim of oc depth arg v : crel of oc ->
+  sim (parse_seq_args tr of depth arg v) (parse_seq_args tr oc depth arg v).
+Proof.
+  intros Hc. unfold parse_seq_args. destruct (items_of v); [|apply sim_lift].
+  apply sim_bind; [apply seq_items_sim; exact Hc|apply seq_items_mono|intros; apply sim_ret|intros; apply mono_ret].
+Qed.
+
+(* generic decomposition of monotonicity goals *)
+Ltac mono_auto IH :=
+  repeat first
+    [ apply mono_ret | apply mono_lift | apply mono_handle_error | apply mono_raise_error
+    | apply mono_collect_tmp | apply mono_clear_tmp | apply IH | apply Kmono
+    | (apply mono_bind; [|intros])
+    | match goal with |- mono (if ?b then _ else _) => destruct b end
+    | match goal with |- mono (match ?x with _ => _ end) => destruct x end ].
+
+(* ---- _parse_map_args ---- *)
+Lemma map_items_mono o depth kt vt : forall items acc, mono (map_items tr o depth kt vt items acc).
+Proof.
+  induction items as [|[k0 v0] rest IH]; intros acc; cbn [map_items]; mono_auto IH.
+Qed.
+
+
+(* generic decomposition of simulation goals whose two sides are the same program run with
+   related options *)
+Ltac sim_step Hc IH IHm :=
+  first
+    [ apply sim_ret | apply sim_lift | apply sim_raise
+    | (apply sim_handle_error; exact Hc) | apply sim_raise_error | apply sim_collect_tmp | apply sim_clear_tmp
+    | (apply sim_junk_l; exact I) | (apply sim_junk_r; exact I)
+    | apply IH | (apply Ksim; exact Hc)
+    | (apply sim_bind; [ | mono_auto IHm | intros | intros; mono_auto IHm ])
+    | match goal with
+      | |- sim (match enter_tr tr ?of ?d ?rt ?t ?v with _ => _ end) (match enter_tr tr ?oc ?d ?rt ?t ?v with _ => _ end) =>
+          let He := fresh "He" in
+          pose proof (enter_rel of oc d rt t v Hc) as He;
+          destruct (enter_tr tr of d rt t v) as [?|[?|?| | |]];
+          destruct (enter_tr tr oc d rt t v) as [?|[?|?| | |]]; enter_cases He; try subst
+      end
+    | match goal with |- sim (if ?b then _ else _) (if ?b then _ else _) => destruct b end
+    | match goal with |- sim (match ?x with _ => _ end) (match ?x with _ => _ end) => destruct x end ].
+Ltac sim_auto Hc IH IHm := repeat sim_step Hc IH IHm.
+
+Lemma map_items_sim of oc depth kt vt : crel of oc -> forall items acc,
+  sim (map_items tr of depth kt vt items acc) (map_items tr oc depth kt vt items acc).
+Proof.
+  intros Hc. induction items as [|[k0 v0] rest IH]; intros acc; cbn [map_items]; [apply sim_ret|].
+  rewrite (crel_keys of oc Hc), (crel_values of oc Hc).
+  pose proof (map_items_mono oc depth kt vt rest) as IHm.
+  sim_auto Hc IH IHm.
+Qed.
+
 End Collect.
